@@ -13,6 +13,9 @@ Tie (harness/global.cpp, ocaml/driver_global.ml):
       A second stream ("gen gpc") has EXACT coincidences (floating groups with centred pins, nets whose pins all
       coincide, stacked twins, no fixed pin at all) for all four net models; the run is stopped at the first
       overflowed / non-finite exposed coordinate, which is a violation with the circuit.
+      A third stream ("gen gpn") has circuits WITHOUT free capacity (every row covered by fixed obstructions: finding F28);
+      they are judged and tied like the others: the model (Spread.circuit_grid_area) follows the repaired code, which gives
+      such a circuit the grid of the rows' bounding box with zero capacity.
   GR  DensityGrid::fromIspdCircuit alone: margin clipping + bin limits, exact.
   SP  spreadCoordX/Y on dyadic inputs (every binary32 operation exact): exact equality with the model.
   SF  spreadCoordX/Y on NON-dyadic inputs against the Flocq binary32 model coq/SpreadFloat.v evaluated inside Coq by
